@@ -379,7 +379,15 @@ class _Run(object):
     self.sw.send(W.flow_mod(LATTICE_RAW[mi], cmd, priority=op["prio"], idle=op["idle"], hard=op["hard"], cookie=cookie,
                             flags=flags, out_port=op["out_port"], actions=actions, xid=self.xid))
     self.check_swallowed()
-    self.compare_messages(self.sw.replies(), expected, cmd=name)
+    got = self.sw.replies()
+    if expected and expected[0].get("detail") == "partial" and not any(g.get("kind") == "error" for g in got):
+      # the switch did not refuse a partially overlapping entry: record it and keep following the switch,
+      # so that the rest of the history is still explored
+      self.out.fail("error-missing", "step %d (%s): expected OFPFMFC_OVERLAP (an entry of the same priority overlaps partially), "
+                    "switch sent %r" % (self.step, self.ctx, got), cmd=name, code=1, detail="partial")
+      self.out.label("continued-after-missing-overlap-error")
+      expected = self.ref.flow_mod(self.sw.now, fm, skip_overlap=True)
+    self.compare_messages(got, expected, cmd=name)
     self.compare_table(cmd=name)
 
   def op_pkt(self, op):
